@@ -169,6 +169,15 @@ def uniquify_pollers(events):
 
 def relay_validate(ctx, events):
     segs = split_segments(uniquify_pollers(project(events, NOISE - {"WForward"})))
+    # a scenario is observed up to its Final event; what the processes still log while the harness takes the
+    # scenario down (connections being closed one by one, calls being cancelled) is not part of it
+    dropped = 0
+    for seg in segs:
+        last = max([i for i, e in enumerate(seg) if e.get("ev") in ("Final", "RelayVolume", "FaultVolume")] or [len(seg) - 1])
+        dropped += len(seg) - 1 - last
+        del seg[last + 1:]
+    if dropped:
+        ctx.extra["events_after_final_dropped"] = ctx.extra.get("events_after_final_dropped", 0) + dropped
     fails = validate_segments(ctx, "RelayTrace", "RelayTrace.cfg", segs)
     for seg, idx, out, inv in fails:
         sig = relay_sig(seg, idx, inv)
